@@ -184,7 +184,7 @@ def check_sequence(stats, m, envs, steps, query, sub="sequence"):
         if oracles is None or obj.kind == lib.OVF:
             continue
         case = make_case(sub, m, None, query=list(query), points=[M.point_to_json(x) for x in envs], steps=[list(x) for x in steps[:k + 1]])
-        note = f" on one object after [{'; '.join(trail[:-1])[-600:]}]"
+        note = f" on one object after [{'; '.join(trail[:-1])[-600:]}]" if trail[:-1] else " (first query on the object)"
         if obj.kind != lib.OBJ:
             raise violation(ID, sub, f"no-object:{obj.kind}:{route}", case,
                             f"{M.text(m)[:300]} at {M.point_text(env)}: defined (value {r.v}) but {route} gave {obj!r}{note}")
